@@ -4,50 +4,35 @@
 //! Property text: the revert gives the account's info before the group (or its absence) and for every slot its value
 //! before the group, where slots not listed read as their pre-bundle value if the storage is marked wiped and as
 //! unchanged otherwise; reverting restores info, status and every present storage value.
-//! Domain: a bundle account in any status sb (info present iff the status says it exists), and a transition that
-//! starts where the bundle account stands (previous_status == sb, previous_info == the bundle's info) and is the
-//! result of ONE or TWO legal events (the pairs (sb, status after) therefore never reach an `unreachable!()` arm).
+//! Domain: one harness instance per (sb, st, flag): a bundle account in status sb (info present iff the status says it
+//! exists) and a transition that starts where the bundle account stands (previous_status == sb, previous_info == the
+//! bundle's info), ends in status st with wipe flag `flag`; the triples are ALL those reachable by a finite sequence of
+//! legal events (closure computed by gen_kstates.py from the step table), so no `unreachable!()` arm is reached.
+//! Statuses are concrete per instance, values (balances, nonces but for one bit of difference, code hashes) symbolic.
 use crate::common::*;
 use crate::db::states::reverts::AccountInfoRevert;
 use crate::db::states::*;
 use crate::primitives::{AccountInfo, HashMap, U256};
 
-fn check_roundtrip(pb: Pat, pt: Pat) {
-    let sb = any_status();
-    let info_b = info_for(sb);
-    let original_info = if kani::any() { Some(any_info()) } else { None };
-    let (storage_b, shb) = slot_storage(pb);
-    // the transition: sb -e1-> s1 [-e2-> st]
-    let e1 = any_ev();
-    kani::assume(legal_c(sb, e1));
-    let s1 = step(sb, e1);
-    let two: bool = kani::any();
-    let e2 = any_ev();
-    kani::assume(!two || legal_c(s1, e2));
-    let st = if two { step(s1, e2) } else { s1 };
-    let last_wipes = if two { ev_wipes(s1, e2) } else { ev_wipes(sb, e1) };
-    let flag_t = last_wipes || (two && ev_wipes(sb, e1));
-    let info_t = info_for(st);
-    // a transition that ends in a wipe carries no storage
-    kani::assume(!last_wipes || (!pt[0] && !pt[1]));
-    let (storage_t, sht) = slot_storage(pt);
-    // chaining: where the bundle holds the slot and nothing was wiped in between, the transition's original value
-    // is the bundle's present value
-    let mut i = 0;
-    while i < 2 {
-        if let (Some((_, bp)), Some((to, _))) = (shb[i], sht[i]) {
-            kani::assume(flag_t || u_eq(to, bp));
-        }
-        i += 1;
-    }
-    let mut b = BundleAccount { info: info_b.clone(), original_info, storage: storage_b, status: sb };
-    let t = TransitionAccount { info: info_t.clone(), status: st, previous_info: info_b.clone(), previous_status: sb, storage: storage_t, storage_was_destroyed: flag_t };
+/// `same`: the transition leaves the info as it is (the same CONCRETE value), else the nonce differs CONCRETELY -- a symbolic
+/// outcome of `self.info != updated_info` makes the variant of `AccountInfoRevert` (which carries an AccountInfo, hence a
+/// `Bytes` vtable) symbolic, and CBMC then dispatches the `Bytes` drop over every function of that signature.
+fn check_roundtrip(sb: AccountStatus, st: AccountStatus, flag_t: bool, exo: bool, same: bool) {
+    let (exb, ext) = (exists(sb), exists(st));
+    // (`same`: one concrete info -- `==` on two copies of a symbolic info is a memcmp CBMC does not fold)
+    let mut info_b = if same { Some(AccountInfo { balance: U256::from_limbs([7, 0, 0, 1]), nonce: 1, code_hash: crate::primitives::KECCAK_EMPTY, code: None }) } else { info_if(exb) };
+    if let Some(i) = info_b.as_mut() { i.nonce = 1; }
+    let original_info = info_if(exo);
+    let mut info_t = if same { info_b.clone() } else { info_if(ext) };
+    if !same { if let Some(i) = info_t.as_mut() { i.nonce = 2; } }
+    let mut b = BundleAccount { info: info_b.clone(), original_info, storage: HashMap::default(), status: sb };
+    let t = TransitionAccount { info: info_t.clone(), status: st, previous_info: info_b.clone(), previous_status: sb, storage: HashMap::default(), storage_was_destroyed: flag_t };
 
     let r = b.update_and_create_revert(t);
     match r {
         None => {
-            // nothing to revert: the info did not change, no slot of the bundle lost its value silently
-            assert!(oi_eq(&info_b, &info_t) || (!exists(sb) && !exists(st)));
+            // nothing to revert: the info did not change, and no database storage was dropped silently
+            assert!(oi_eq(&info_b, &info_t));
             assert!(!destroyed(st) || storage_known(sb));
         }
         Some(rev) => {
@@ -63,70 +48,162 @@ fn check_roundtrip(pb: Pat, pt: Pat) {
             }
             // wiped: the account's database storage is dropped by this group, i.e. it is destroyed now and was not
             // before; an account whose storage is (partly) only in the database MUST be flagged, one that is not
-            // destroyed by this group or was destroyed already must NOT be
+            // destroyed by this group or was destroyed already must NOT be (then "not listed" has to read as unchanged)
             if destroyed(st) && !storage_known(sb) {
                 assert!(rev.wipe_storage);
             }
             if !destroyed(st) || destroyed(sb) {
                 assert!(!rev.wipe_storage);
             }
-            // slot list
-            let mut i = 0;
-            while i < 2 {
-                if pb[i] || pt[i] {
-                    let before = match (shb[i], sht[i]) { (Some((_, bp)), _) => Some(bp), (None, Some((to, _))) => Some(to), _ => None };
-                    match rev.storage.get(&key(i)) {
-                        Some(RevertToSlot::Some(v)) => assert!(before.is_some() && u_eq(*v, before.unwrap())),
-                        // "destroyed": the slot was not held before the group (it reads as zero after the revert)
-                        Some(RevertToSlot::Destroyed) => assert!(shb[i].is_none()),
-                        None => {
-                            if rev.wipe_storage {
-                                // not listed + wiped reads as the pre-bundle value: a value held by the bundle must be listed
-                                assert!(shb[i].is_none());
-                            } else if let Some((to, tp)) = sht[i] {
-                                // not listed + not wiped reads as unchanged
-                                assert!(u_eq(to, tp) || (destroyed(sb) && shb[i].is_none() && u_eq(tp, U256::ZERO)));
-                            }
-                        }
-                    }
-                }
-                i += 1;
-            }
+            assert!(rev.storage.is_empty());
             // apply the revert
-            let _removable = b.revert(rev);
+            let removable = b.revert(rev);
             assert!(st_eq(b.status, sb));
             assert!(oi_eq(&b.info, &info_b));
-            let mut i = 0;
-            while i < 2 {
-                if pb[i] || pt[i] {
-                    let after = slot_of(&b.storage, i);
-                    match (shb[i], sht[i]) {
-                        // every present value the bundle held is back
-                        (Some((_, bp)), _) => assert!(after.is_some() && u_eq(after.unwrap().1, bp)),
-                        // a slot the bundle did not hold is gone again, or reads as the value the group started from
-                        (None, Some((to, _))) => assert!(after.is_none() || u_eq(after.unwrap().1, to)),
-                        _ => {}
-                    }
-                }
-                i += 1;
-            }
+            assert!(b.storage.is_empty());
+            // only an account that did not exist before the bundle may disappear from it
+            assert!(!removable || (!exo && !exb));
         }
     }
-    kani::cover!(st_eq(sb, Changed) && st_eq(st, DestroyedChanged) && b.info.is_some());
+    kani::cover!(true);
 }
 
-macro_rules! harness {
-    ($name:ident, $unwind:expr, $a:expr, $b:expr) => {
+/// `BundleAccount::revert` alone, on a hand-built revert (so that the slot part is reachable at a bearable cost):
+/// kind 0 = DoNothing, 1 = RevertTo(info), 2 = DeleteIt on an account that was absent before the bundle,
+/// 3 = DeleteIt on an account that existed before the bundle; `pr[i]`: 0 = key i not listed, 1 = Some(v), 2 = Destroyed.
+fn check_revert(ex_now: bool, kind: u8, pb: Pat, pr: [u8; 2]) {
+    let s_now = any_status_ex(ex_now);
+    let info_now = info_if(ex_now);
+    let original_info = if kind == 2 { None } else { Some(any_info()) };
+    let (storage_b, shb) = slot_storage(pb);
+    let mut b = BundleAccount { info: info_now.clone(), original_info, storage: storage_b, status: s_now };
+    let s_prev = any_status();
+    let info_prev = any_info();
+    let account = match kind { 0 => AccountInfoRevert::DoNothing, 1 => AccountInfoRevert::RevertTo(info_prev.clone()), _ => AccountInfoRevert::DeleteIt };
+    let mut listed: HashMap<U256, RevertToSlot> = HashMap::default();
+    let mut shr: [Option<U256>; 2] = [None, None];
+    let mut i = 0;
+    while i < 2 {
+        if pr[i] == 1 {
+            let v = any_u256();
+            listed.insert(key(i), RevertToSlot::Some(v));
+            shr[i] = Some(v);
+        } else if pr[i] == 2 {
+            listed.insert(key(i), RevertToSlot::Destroyed);
+        }
+        i += 1;
+    }
+    let rev = AccountRevert { account, storage: listed, previous_status: s_prev, wipe_storage: kani::any() };
+    let removable = b.revert(rev);
+    assert!(st_eq(b.status, s_prev));
+    match kind {
+        0 => assert!(oi_eq(&b.info, &info_now)),
+        1 => assert!(b.info.is_some() && i_eq(b.info.as_ref().unwrap(), &info_prev)),
+        _ => assert!(b.info.is_none()),
+    }
+    // only an account that did not exist before the bundle disappears from it
+    assert!(removable == (kind == 2));
+    let mut i = 0;
+    while i < 2 {
+        if pb[i] || pr[i] != 0 {
+            let after = slot_of(&b.storage, i);
+            if kind == 2 {
+                assert!(after.is_none());
+            } else if kind == 3 {
+                // the account is deleted: every slot it held reads zero, the pre-bundle value is kept
+                match shb[i] { Some((bo, _)) => assert!(slot_eq(after, Some((bo, U256::ZERO)))), None => assert!(after.is_none()) }
+            } else {
+                match (pr[i], shb[i]) {
+                    // listed value: it is the present value again; the pre-bundle value is kept if the bundle knew it
+                    (1, Some((bo, _))) => assert!(slot_eq(after, Some((bo, shr[i].unwrap())))),
+                    (1, None) => assert!(slot_eq(after, Some((shr[i].unwrap(), shr[i].unwrap())))),
+                    // the slot was created by the group: gone
+                    (2, _) => assert!(after.is_none()),
+                    // not listed: unchanged
+                    (_, held) => assert!(slot_eq(after, held)),
+                }
+            }
+        }
+        i += 1;
+    }
+    kani::cover!(st_eq(s_prev, Changed));
+}
+
+macro_rules! revert_harness {
+    ($name:ident, $unwind:expr, $e:expr, $k:expr, $a:expr, $b:expr) => {
         #[kani::proof]
         #[kani::unwind($unwind)]
         #[kani::stub(std::hash::RandomState::new, fixed_random_state)]
         fn $name() {
-            check_roundtrip($a, $b)
+            check_revert($e, $k, $a, $b)
         }
     };
 }
-// instance names: roundtrip_<keys held by the bundle account>_<keys written by the transition>
-harness!(roundtrip_00_00, 6, P00, P00);
-harness!(roundtrip_10_00, 6, P10, P00);
-harness!(roundtrip_00_10, 6, P00, P10);
-harness!(roundtrip_10_10, 6, P10, P10);
+// instance names: revert_<kind>_<keys held by the bundle account>_<revert entries: 0 none, 1 Some(v), 2 Destroyed>
+revert_harness!(revert_nothing_00_00, 34, true, 0, P00, [0, 0]);
+revert_harness!(revert_to_00_00, 34, true, 1, P00, [0, 0]);
+revert_harness!(revert_delete_absent_00_00, 34, true, 2, P00, [0, 0]);
+revert_harness!(revert_delete_existing_00_00, 34, true, 3, P00, [0, 0]);
+revert_harness!(revert_to_10_10, 34, true, 1, P10, [1, 0]);
+
+macro_rules! roundtrip {
+    ($name:ident, $sb:expr, $st:expr, $flag:expr, $exo:expr, $same:expr) => {
+        #[kani::proof]
+        #[kani::unwind(34)]
+        #[kani::stub(std::hash::RandomState::new, fixed_random_state)]
+        #[kani::stub(revm_interpreter::primitives::Bytecode::new, bytecode_new_stub)]
+        fn $name() {
+            check_roundtrip($sb, $st, $flag, $exo, $same)
+        }
+    };
+}
+// ---- generated instances (gen_kstates.py) ----
+// names: roundtrip_<status before>_<status after>[_w: the transition carries the wipe flag]_<keep|diff: info unchanged / changed; new|old: the
+// account did not / did exist before the bundle (where it does not exist before the group)>
+roundtrip!(roundtrip_lne_imc_new, LoadedNotExisting, InMemoryChange, false, false, false);
+roundtrip!(roundtrip_lne_d_w_new, LoadedNotExisting, Destroyed, true, false, false);
+roundtrip!(roundtrip_lne_dc_w_new, LoadedNotExisting, DestroyedChanged, true, false, false);
+roundtrip!(roundtrip_lne_da_w_new, LoadedNotExisting, DestroyedAgain, true, false, false);
+roundtrip!(roundtrip_l_imc_keep, Loaded, InMemoryChange, false, true, true);
+roundtrip!(roundtrip_l_imc_diff, Loaded, InMemoryChange, false, true, false);
+roundtrip!(roundtrip_l_c_keep, Loaded, Changed, false, true, true);
+roundtrip!(roundtrip_l_c_diff, Loaded, Changed, false, true, false);
+roundtrip!(roundtrip_l_d_w_diff, Loaded, Destroyed, true, true, false);
+roundtrip!(roundtrip_l_dc_w_keep, Loaded, DestroyedChanged, true, true, true);
+roundtrip!(roundtrip_l_dc_w_diff, Loaded, DestroyedChanged, true, true, false);
+roundtrip!(roundtrip_l_da_w_diff, Loaded, DestroyedAgain, true, true, false);
+roundtrip!(roundtrip_le_imc_keep, LoadedEmptyEIP161, InMemoryChange, false, true, true);
+roundtrip!(roundtrip_le_imc_diff, LoadedEmptyEIP161, InMemoryChange, false, true, false);
+roundtrip!(roundtrip_le_d_w_diff, LoadedEmptyEIP161, Destroyed, true, true, false);
+roundtrip!(roundtrip_le_dc_w_keep, LoadedEmptyEIP161, DestroyedChanged, true, true, true);
+roundtrip!(roundtrip_le_dc_w_diff, LoadedEmptyEIP161, DestroyedChanged, true, true, false);
+roundtrip!(roundtrip_le_da_w_diff, LoadedEmptyEIP161, DestroyedAgain, true, true, false);
+roundtrip!(roundtrip_imc_imc_keep, InMemoryChange, InMemoryChange, false, true, true);
+roundtrip!(roundtrip_imc_imc_diff, InMemoryChange, InMemoryChange, false, true, false);
+roundtrip!(roundtrip_imc_d_w_diff, InMemoryChange, Destroyed, true, true, false);
+roundtrip!(roundtrip_imc_dc_w_keep, InMemoryChange, DestroyedChanged, true, true, true);
+roundtrip!(roundtrip_imc_dc_w_diff, InMemoryChange, DestroyedChanged, true, true, false);
+roundtrip!(roundtrip_imc_da_w_diff, InMemoryChange, DestroyedAgain, true, true, false);
+roundtrip!(roundtrip_c_c_keep, Changed, Changed, false, true, true);
+roundtrip!(roundtrip_c_c_diff, Changed, Changed, false, true, false);
+roundtrip!(roundtrip_c_d_w_diff, Changed, Destroyed, true, true, false);
+roundtrip!(roundtrip_c_dc_w_keep, Changed, DestroyedChanged, true, true, true);
+roundtrip!(roundtrip_c_dc_w_diff, Changed, DestroyedChanged, true, true, false);
+roundtrip!(roundtrip_c_da_w_diff, Changed, DestroyedAgain, true, true, false);
+roundtrip!(roundtrip_d_dc_new, Destroyed, DestroyedChanged, false, false, false);
+roundtrip!(roundtrip_d_dc_old, Destroyed, DestroyedChanged, false, true, false);
+roundtrip!(roundtrip_d_dc_w_new, Destroyed, DestroyedChanged, true, false, false);
+roundtrip!(roundtrip_d_dc_w_old, Destroyed, DestroyedChanged, true, true, false);
+roundtrip!(roundtrip_d_da_w_new, Destroyed, DestroyedAgain, true, false, false);
+roundtrip!(roundtrip_d_da_w_old, Destroyed, DestroyedAgain, true, true, false);
+roundtrip!(roundtrip_dc_dc_keep, DestroyedChanged, DestroyedChanged, false, true, true);
+roundtrip!(roundtrip_dc_dc_diff, DestroyedChanged, DestroyedChanged, false, true, false);
+roundtrip!(roundtrip_dc_dc_w_keep, DestroyedChanged, DestroyedChanged, true, true, true);
+roundtrip!(roundtrip_dc_dc_w_diff, DestroyedChanged, DestroyedChanged, true, true, false);
+roundtrip!(roundtrip_dc_da_w_diff, DestroyedChanged, DestroyedAgain, true, true, false);
+roundtrip!(roundtrip_da_dc_new, DestroyedAgain, DestroyedChanged, false, false, false);
+roundtrip!(roundtrip_da_dc_old, DestroyedAgain, DestroyedChanged, false, true, false);
+roundtrip!(roundtrip_da_dc_w_new, DestroyedAgain, DestroyedChanged, true, false, false);
+roundtrip!(roundtrip_da_dc_w_old, DestroyedAgain, DestroyedChanged, true, true, false);
+roundtrip!(roundtrip_da_da_w_new, DestroyedAgain, DestroyedAgain, true, false, false);
+roundtrip!(roundtrip_da_da_w_old, DestroyedAgain, DestroyedAgain, true, true, false);
